@@ -1498,6 +1498,16 @@ func (c *Cluster) loadSegmentBatches(pd *partData, fsys fs, pdir string, base in
 		var maxEarlierTS int64
 		var inTx bool
 		idxOff := batchIdx * indexEntrySize
+		if idxRaw != nil && idxOff+indexEntrySize > len(idxRaw) {
+			// Torn append: the batch reached the segment file but its
+			// index entry did not. A batch is acknowledged only after
+			// both writes (and, with SyncWrites, both fsyncs), so this
+			// batch was never acknowledged. Drop it (the segment is
+			// truncated below): keeping it would replay it with zero
+			// metadata (inTx lost) and pair every later batch with the
+			// index entry of its successor.
+			break
+		}
 		if idxOff+indexEntrySize <= len(idxRaw) {
 			epoch, maxEarlierTS, inTx, _ = decodeIndexEntry(idxRaw[idxOff : idxOff+indexEntrySize])
 		}
